@@ -300,7 +300,9 @@ def mask_history(seed):
     import collada
     r = random.Random('c08mask/%s' % seed)
     allcls = CLASSES + ['DaeError']
-    d = collada.Collada(ignore=[cls(c) for c in r.sample(allcls, r.randint(0, 2))] if r.random() < 0.5 else None)
+    cfg = [cls(c) for c in r.sample(allcls, r.randint(0, 2))] if r.random() < 0.6 else None       # an application keeps one ignore list and hands it to every document
+    cfg0 = None if cfg is None else list(cfg)
+    d = collada.Collada(ignore=cfg)
     eff = [m.__name__ for m in d.maskedErrors]
     hist = ['new(%s)' % ','.join(eff)]
     nrec = len(d.errors)
@@ -335,6 +337,14 @@ def mask_history(seed):
                         'after %s a %s %s although the classes ignored since the last clearing are %s' % (hist, c, 'is ignored' if got else 'aborts', eff))
             if len(d.errors) != nrec:
                 return ('mask-history:not-recorded', 'after %s the handled error was not recorded' % hist)
+        if cfg is not None and cfg != cfg0:
+            return ('mask-history:callers-list-modified', 'after %s the list the caller passed as ignore=%s has become %s: the next document created from it gets another mask'
+                    % (hist, [c.__name__ for c in cfg0], [getattr(c, '__name__', c) for c in cfg]))
+    if cfg is not None:
+        d2 = collada.Collada(ignore=cfg)
+        if [m.__name__ for m in d2.maskedErrors] != [c.__name__ for c in cfg0]:
+            return ('mask-history:second-document', 'a second document created with the same ignore list has the mask %s, the list was %s'
+                    % ([m.__name__ for m in d2.maskedErrors], [c.__name__ for c in cfg0]))
     return None
 
 
